@@ -12,6 +12,7 @@ of operands / bystanders, non-repeatable results and merge/neutral-element failu
 from __future__ import annotations
 
 import random
+import os
 import sys
 
 from harness import algebra, common, tlc
@@ -25,7 +26,8 @@ def bounds(tier):
   if tier == 'thorough':
     return dict(mc=dict(NAccs=3, NItems=4, MaxBatch=2, EmptyBatches=False, MaxMerges=3, MaxOps=99),
                 gen=[dict(NAccs=3, NItems=4, MaxBatch=2, EmptyBatches=False, MaxMerges=3, MaxOps=7),
-                     dict(NAccs=2, NItems=4, MaxBatch=4, EmptyBatches=True, MaxMerges=2, MaxOps=6)], sample=None)
+                     dict(NAccs=2, NItems=4, MaxBatch=4, EmptyBatches=True, MaxMerges=2, MaxOps=6)],
+                sample=int(os.environ.get('VERIF_C01_SAMPLE', '25000')) or None)     # 0 = every enumerated history (about an hour)
   return dict(mc=dict(NAccs=3, NItems=4, MaxBatch=2, EmptyBatches=False, MaxMerges=2, MaxOps=99),
               gen=[dict(NAccs=3, NItems=4, MaxBatch=2, EmptyBatches=False, MaxMerges=2, MaxOps=6),
                    dict(NAccs=2, NItems=4, MaxBatch=4, EmptyBatches=True, MaxMerges=2, MaxOps=5)], sample=1500)
